@@ -127,7 +127,7 @@ fn hard(llr: f64) -> u8 {
 pub fn run(run: &mut Run) {
     run.rule = "BPSK: LLR vs (|r-s1|^2-|r-s0|^2)/(2 sigma^2) with s0,s1 read from the public modulator (relative 1e-13); 8PSK: LLR_b vs max-shifted log-sum-exp over the constellation obtained from the public modulator (all 8 triples), tolerance 1e-9(1+|L|) + 64u*max|metric|; samples: constellation points (scaled), decision boundaries, origin, far away (|r| up to 1e3), realistic noisy points, polar/log-uniform 1e-3..1e3; sigma log-uniform 1e-3..1e3; constellation = DVB-S2 Gray mapping, unit energy, neighbours differ in one bit; noiseless hard decisions for random bit sequences (owned arrays and reversed/strided views) return the bits; non-trivial = sample with |r|>0 not on a symmetry axis; distinct by (r, sigma) digest".into();
     run.assumptions = vec!["sigma restricted to [1e-3,1e3] and |r| <= 1e3 so that |r|/sigma^2 stays far below the floating range".into()];
-    let n = if cfg!(miri) { 40 } else { run.tier.n(400_000, 20_000_000) };
+    let n = if cfg!(miri) { 40 } else { run.tier.n(20_000_000, 600_000_000) };
     let chunk = 500u64;
     run.sub_seq("constellation", 1, |l, _i, _rng| {
         check_constellation(l);
@@ -228,7 +228,7 @@ pub fn run(run: &mut Run) {
             }
         }
     });
-    let nseq = if cfg!(miri) { 4 } else { run.tier.n(3000, 60_000) };
+    let nseq = if cfg!(miri) { 4 } else { run.tier.n(100_000, 3_000_000) };
     run.sub("noiseless-roundtrip", nseq, |l, _idx, rng: &mut Rng| {
         let nsym = rng.range(1, 40);
         let bits: Vec<u8> = (0..3 * nsym).map(|_| rng.coin() as u8).collect();
